@@ -859,7 +859,9 @@ def evaluate__random_number_generator(self: XPathFunction, context: ta.ContextTy
     seed = self.get_argument(context, cls=AnyAtomicType)
     if not isinstance(seed, (int, str)):
         seed = str(seed)
-    random.seed(seed)
+    # A private generator: seeding the module-level functions of `random` would change the
+    # state of the generator that the application and the other evaluations share.
+    rng = random.Random(seed)
 
     class Permute(XPathFunction):
         nargs = 1
@@ -874,7 +876,7 @@ def evaluate__random_number_generator(self: XPathFunction, context: ta.ContextTy
             except TypeError:
                 return [args[0]]
             else:
-                random.shuffle(seq)
+                rng.shuffle(seq)
                 return seq
 
     class NextRandom(XPathFunction):
@@ -883,7 +885,7 @@ def evaluate__random_number_generator(self: XPathFunction, context: ta.ContextTy
 
         def __call__(self, *args: Any, **kwargs: Any) -> XPathMap:
             items = {
-                'number': random.random(),
+                'number': rng.random(),
                 'next': NextRandom(self.parser),
                 'permute': Permute(self.parser),
             }
